@@ -523,7 +523,21 @@ func cmdRun(args []string) int {
 						c.viol.Reproduced = true
 					}
 				} else {
-					if out == "ok" {
+					sameAsEngine := false
+					if strings.HasPrefix(out, "assert-failed") {
+						// the cover's input may also be one on which the engine itself found an assertion to fail
+						for _, r := range results {
+							if r.Entry != c.entry {
+								continue
+							}
+							for _, v := range r.Violations {
+								if v.Kind == "assert" && strings.Contains(out, strconv.Quote(v.Label)) {
+									sameAsEngine = true
+								}
+							}
+						}
+					}
+					if out == "ok" || sameAsEngine {
 						validated++
 					} else {
 						engineErrors = append(engineErrors, fmt.Sprintf("interpreter/native disagreement: entry %s cover %q: engine says the path completes, native run: %s", c.entry, c.cover, truncate(out, 300)))
